@@ -8,10 +8,16 @@ package dastard
 
 import (
 	"encoding/binary"
+	"errors"
 	"fmt"
 	"net"
 	"time"
+
+	"github.com/usnistgov/dastard/packets"
 )
+
+// ErrVerifC12Rejected reports that isvalid() refused the option set.
+var ErrVerifC12Rejected = errors.New("verif: option set rejected by isvalid")
 
 // VerifC12Limits projects the configuration fields of an unwrapper (for tags / diagnostics only).
 func (u *PhaseUnwrapper) VerifC12Limits() (lower, upper int, twoPi, resetOffset uint16, resetAfter int) {
@@ -79,4 +85,59 @@ func VerifC12RoachUnwrapper(opt AbacoUnwrapOptions) (u *PhaseUnwrapper, rejected
 		err = fmt.Errorf("verif: samplePacket built %d unwrappers, want 1", len(dev.unwrap))
 	}
 	return nil, false, err
+}
+
+// VerifC12AbacoDemux drives the place where abaco.go uses the unwrappers: a channel group built by
+// NewAbacoGroup receives, call after call, packets that interleave the channels' samples, and
+// demuxData() de-interleaves and unwraps them (one unwrapper per channel, state carried between calls).
+// calls[k][ch] are the raw samples of channel ch in call k (all channels of a call have the same length);
+// each call's frames are cut into packets of at most pktFrames frames.  Returns out[k][ch].
+func VerifC12AbacoDemux(opt AbacoUnwrapOptions, firstchan, nchan int, calls [][][]uint16, pktFrames int) ([][][]uint16, error) {
+	if err := opt.isvalid(); err != nil {
+		return nil, ErrVerifC12Rejected
+	}
+	if pktFrames < 1 {
+		pktFrames = 1
+	}
+	g := NewAbacoGroup(GroupIndex{Firstchan: firstchan, Nchan: nchan}, opt)
+	out := make([][][]uint16, len(calls))
+	seq := uint32(0)
+	for k, call := range calls {
+		if len(call) != nchan {
+			return nil, fmt.Errorf("verif: call %d has %d channels, want %d", k, len(call), nchan)
+		}
+		nframes := len(call[0])
+		for fr := 0; fr < nframes; fr += pktFrames {
+			m := pktFrames
+			if m > nframes-fr {
+				m = nframes - fr
+			}
+			d := make([]int16, m*nchan)
+			for j := 0; j < m; j++ {
+				for ch := 0; ch < nchan; ch++ {
+					d[j*nchan+ch] = int16(call[ch][fr+j])
+				}
+			}
+			p := packets.NewPacket(10, 20, seq, firstchan)
+			seq++
+			if err := p.NewData(d, []int16{int16(nchan)}); err != nil {
+				return nil, err
+			}
+			g.queue = append(g.queue, p)
+		}
+		datacopies := make([][]RawType, nchan)
+		for ch := range datacopies {
+			datacopies[ch] = make([]RawType, nframes)
+		}
+		g.demuxData(datacopies, nframes)
+		out[k] = make([][]uint16, nchan)
+		for ch := range datacopies {
+			o := make([]uint16, nframes)
+			for i, v := range datacopies[ch] {
+				o[i] = uint16(v)
+			}
+			out[k][ch] = o
+		}
+	}
+	return out, nil
 }
